@@ -40,12 +40,14 @@ class SerialObligation:
 
 
 def _run_kernel(spec):
-    modname, clsname, pid = spec
+    modname, clsname, pid = spec[:3]
+    bounded = spec[3] if len(spec) > 3 else None
     try:
         import z3
         mod = importlib.import_module(modname)
         kc = [c for c in mod.KERNELS if c.__name__ == clsname][0]
         k = kc()
+        k.bounded_mode = bounded
         dumps = extract.dump_many(k.requests())
         k.locate(dumps)
         obs, st = k.run_all()
@@ -119,6 +121,19 @@ def run_property(pid, tier, seed):
         if kr.get("gap"):
             out["gaps"].append({"kernel": k.kid, "reason": kr["gap"]})
             print("GAP kernel=%s %s" % (k.kid, kr["gap"]))
+            if k.bounded_fallback:
+                # the body no longer matches the invariants: look for a concrete counterexample in bounded mode
+                br = _run_kernel((k.__class__.__module__, k.__class__.__name__, pid, k.bounded_fallback))
+                if br.get("gap"):
+                    print("GAP kernel=%s (bounded fallback) %s" % (k.kid, br["gap"]))
+                else:
+                    print("bounded fallback: kernel=%s loops unrolled %d times, sizes <= %d: refutations are reported, "
+                          "a pass proves nothing" % (k.kid, k.bounded_fallback, k.bounded_fallback))
+                    k.src = br["src"]
+                    for od in br["obligations"]:
+                        ob = SerialObligation(od, k)
+                        ob.bounded_only = True
+                        allobs.append(ob)
             continue
         st = kr["stats"]
         k.src = kr["src"]
@@ -161,6 +176,8 @@ def run_property(pid, tier, seed):
             out["solver_time"][sv] = round(out["solver_time"].get(sv, 0.0) + r.get("time_s", 0.0), 4)
     known = load_known()
     for (kern, name), lst in named.items():
+        if getattr(lst[0][0], "bounded_only", False) and not any(r["status"] == "refuted" for _, r in lst):
+            continue  # bounded pass: proves nothing, the gap already stands
         out["obligations"] += 1
         sts = [r["status"] for _, r in lst]
         if all(s == "discharged" for s in sts):
